@@ -368,7 +368,11 @@ int pv_main(int argc, char** argv, const char* prop, const pv_section* secs, int
     pv_cur.section = "init"; pv_cur.idx = 0;
     if (init) init();
     bool resuming = resume_sec != NULL;
+    const char* skip = getenv("PV_SKIP_SECTIONS");      /* comma-separated section names a flavour cannot run (e.g. 2^31-byte strings under MemorySanitizer) */
     for (int s = 0; s < nsecs; ++s) {
+        if (skip && !have_only) { size_t L = strlen(secs[s].name); const char* q = skip; bool hit = false;
+            while (*q) { const char* e2 = strchr(q, ','); size_t n2 = e2 ? (size_t)(e2 - q) : strlen(q); if (n2 == L && !strncmp(q, secs[s].name, L)) hit = true; q += n2; if (*q == ',') ++q; }
+            if (hit) { pv_countf(1, "sections_skipped.%s", secs[s].name); continue; } }
         if (have_only && strcmp(secs[s].name, only_sec)) continue;
         if (resuming && strcmp(secs[s].name, resume_sec)) continue;
         uint64_t n = secs[s].count();
